@@ -55,7 +55,7 @@ func (vfs *OrefaFS) Chdir(dir string) error {
 	absPath, _ := vfs.Abs(dir)
 
 	vfs.mu.RLock()
-	nd, ok := vfs.nodes[absPath]
+	nd, ok := vfs.nodes[vfs.absKey(dir)]
 	vfs.mu.RUnlock()
 
 	if !ok {
@@ -97,7 +97,7 @@ func (vfs *OrefaFS) Chdir(dir string) error {
 func (vfs *OrefaFS) Chmod(name string, mode fs.FileMode) error {
 	const op = "chmod"
 
-	absPath, _ := vfs.Abs(name)
+	absPath := vfs.absKey(name)
 
 	vfs.mu.RLock()
 	nd, ok := vfs.nodes[absPath]
@@ -128,7 +128,7 @@ func (vfs *OrefaFS) Chown(name string, uid, gid int) error {
 		return &fs.PathError{Op: op, Path: name, Err: vfs.err.OpNotPermitted}
 	}
 
-	absPath, _ := vfs.Abs(name)
+	absPath := vfs.absKey(name)
 
 	vfs.mu.RLock()
 	nd, ok := vfs.nodes[absPath]
@@ -154,7 +154,7 @@ func (vfs *OrefaFS) Chown(name string, uid, gid int) error {
 func (vfs *OrefaFS) Chtimes(name string, atime, mtime time.Time) error {
 	const op = "chtimes"
 
-	absPath, _ := vfs.Abs(name)
+	absPath := vfs.absKey(name)
 
 	vfs.mu.RLock()
 	nd, ok := vfs.nodes[absPath]
@@ -304,7 +304,7 @@ func (vfs *OrefaFS) Lchown(name string, uid, gid int) error {
 		return &fs.PathError{Op: op, Path: name, Err: vfs.err.OpNotPermitted}
 	}
 
-	absPath, _ := vfs.Abs(name)
+	absPath := vfs.absKey(name)
 
 	vfs.mu.RLock()
 	nd, ok := vfs.nodes[absPath]
@@ -326,8 +326,8 @@ func (vfs *OrefaFS) Lchown(name string, uid, gid int) error {
 func (vfs *OrefaFS) Link(oldname, newname string) error {
 	const op = "link"
 
-	oAbsPath, _ := vfs.Abs(oldname)
-	nAbsPath, _ := vfs.Abs(newname)
+	oAbsPath := vfs.absKey(oldname)
+	nAbsPath := vfs.absKey(newname)
 
 	nDirName, nFileName := avfs.SplitAbs(vfs, nAbsPath)
 
@@ -451,7 +451,7 @@ func (vfs *OrefaFS) Mkdir(name string, perm fs.FileMode) error {
 		return &fs.PathError{Op: op, Path: "", Err: vfs.err.NoSuchDir}
 	}
 
-	absPath, _ := vfs.Abs(name)
+	absPath := vfs.absKey(name)
 	dirName, fileName := avfs.SplitAbs(vfs, absPath)
 
 	vfs.mu.Lock()
@@ -496,7 +496,7 @@ func (vfs *OrefaFS) Mkdir(name string, perm fs.FileMode) error {
 func (vfs *OrefaFS) MkdirAll(path string, perm fs.FileMode) error {
 	const op = "mkdir"
 
-	absPath, _ := vfs.Abs(path)
+	absPath := vfs.absKey(path)
 
 	vfs.mu.Lock()
 	defer vfs.mu.Unlock()
@@ -576,7 +576,7 @@ func (vfs *OrefaFS) OpenFile(name string, flag int, perm fs.FileMode) (avfs.File
 	at := int64(0)
 	om := avfs.ToOpenMode(flag)
 
-	absPath, _ := vfs.Abs(name)
+	absPath := vfs.absKey(name)
 	dirName, fileName := avfs.SplitAbs(vfs, absPath)
 
 	vfs.mu.RLock()
@@ -691,7 +691,7 @@ func (vfs *OrefaFS) Rel(basepath, targpath string) (string, error) {
 func (vfs *OrefaFS) Remove(name string) error {
 	const op = "remove"
 
-	absPath, _ := vfs.Abs(name)
+	absPath := vfs.absKey(name)
 	dirName, fileName := avfs.SplitAbs(vfs, absPath)
 
 	vfs.mu.Lock()
@@ -702,6 +702,11 @@ func (vfs *OrefaFS) Remove(name string) error {
 
 	if !childOk || !parentOk {
 		return &fs.PathError{Op: op, Path: name, Err: vfs.err.NoSuchFile}
+	}
+
+	if child == parent {
+		// The root directory is its own parent and can't be removed.
+		return &fs.PathError{Op: op, Path: name, Err: vfs.err.InvalidArgument}
 	}
 
 	parent.mu.Lock()
@@ -733,7 +738,7 @@ func (vfs *OrefaFS) RemoveAll(path string) error {
 		return nil
 	}
 
-	absPath, _ := vfs.Abs(path)
+	absPath := vfs.absKey(path)
 	dirName, fileName := avfs.SplitAbs(vfs, absPath)
 
 	vfs.mu.Lock()
@@ -744,6 +749,11 @@ func (vfs *OrefaFS) RemoveAll(path string) error {
 
 	if !childOk || !parentOk {
 		return nil
+	}
+
+	if child == parent {
+		// The root directory is its own parent and can't be removed.
+		return &fs.PathError{Op: "unlinkat", Path: path, Err: vfs.err.InvalidArgument}
 	}
 
 	if child.mode.IsDir() {
@@ -778,8 +788,8 @@ func (vfs *OrefaFS) removeAll(absPath string, rootNode *node) {
 func (vfs *OrefaFS) Rename(oldname, newname string) error {
 	const op = "rename"
 
-	oAbsPath, _ := vfs.Abs(oldname)
-	nAbsPath, _ := vfs.Abs(newname)
+	oAbsPath := vfs.absKey(oldname)
+	nAbsPath := vfs.absKey(newname)
 
 	if oAbsPath == nAbsPath {
 		return nil
@@ -910,7 +920,7 @@ func (vfs *OrefaFS) Stat(path string) (fs.FileInfo, error) {
 
 // stat is the internal function used by Stat and Lstat.
 func (vfs *OrefaFS) stat(path, op string) (fs.FileInfo, error) {
-	absPath, _ := vfs.Abs(path)
+	absPath := vfs.absKey(path)
 	dirName, fileName := avfs.SplitAbs(vfs, absPath)
 
 	vfs.mu.RLock()
@@ -989,7 +999,7 @@ func (vfs *OrefaFS) ToSysStat(info fs.FileInfo) avfs.SysStater {
 func (vfs *OrefaFS) Truncate(name string, size int64) error {
 	op := "truncate"
 
-	absPath, _ := vfs.Abs(name)
+	absPath := vfs.absKey(name)
 
 	vfs.mu.RLock()
 	child, childOk := vfs.nodes[absPath]
